@@ -20,9 +20,9 @@ from common import BUILD, err_class, sx, parse_sx, time_limit
 warnings.filterwarnings("ignore")
 
 DT = torch.float64
-KINDS = ["regular", "nested", "lazy", "sub", "tensorclass", "memmap", "shared"]
+KINDS = ["regular", "nested", "lazy", "sub", "tensorclass", "memmap", "shared", "params"]
 LAYOUTS = ["contiguous", "strided", "expanded", "offset", "zero_feat", "zero_batch", "mixed"]
-LOCKED_KINDS = ("memmap", "shared")
+LOCKED_KINDS = ("memmap", "shared", "params")
 
 
 # ----------------------------------------------------------------------------------------------- values
@@ -228,6 +228,10 @@ class Container:
         elif kind == "shared":
             inner = build_plain(bs, layout if layout in ("contiguous", "zero_batch", "zero_feat") else "contiguous", self.cnt, rng, True, zf)
             self.td = inner.share_memory_()
+        elif kind == "params":
+            from tensordict import TensorDictParams
+            inner = build_plain(bs, layout, self.cnt, rng, True, zf)
+            self.td = TensorDictParams(inner)      # leaves become nn.Parameter (sharing the storage of the given tensors)
         else:
             raise ValueError(kind)
 
